@@ -48,8 +48,18 @@ C09(g) == LET one(c, base, r, tag) ==
 \* C10: all-or-nothing results, Validate and the independent shape check
 Shape(r) == IF Ok(r) THEN ~r.e_nil /\ r.err_nil /\ r.validate_ok /\ G!WellFormed(r.tree)
             ELSE r.outcome = "err" /\ r.e_nil /\ ~r.err_nil
+HasObs10(r) == "obs" \in DOMAIN r
+SqlShape(r) == ~HasObs10(r) \/
+               /\ (r.obs.sql.out = "ok" => ~r.obs.sql.empty) /\ (r.obs.sql.out = "err" => r.obs.sql.empty)
+               /\ (r.obs.sqlp.out = "err" => r.obs.sqlp.empty)
+               /\ (r.obs.sql2.out = "ok" => ~r.obs.sql2.empty) /\ (r.obs.sql2.out = "err" => r.obs.sql2.empty)
+               /\ (r.obs.sqlp2.out = "err" => r.obs.sqlp2.empty)
+               /\ r.obs.sql2.out = r.obs.sql.out /\ r.obs.sqlp2.out = r.obs.sqlp.out
+               /\ (~Ok(r) => r.obs.sql.out = "err" /\ r.obs.sqlp.out = "err")
 C10(g) == LET chk(c) == (IF Shape(c.res) THEN <<>> ELSE <<Fail("C10", c, "result shape")>>)
                         \o (IF Shape(c.resdf) THEN <<>> ELSE <<Fail("C10", c, "result shape (default field)")>>)
+                        \o (IF SqlShape(c.res) /\ SqlShape(c.resdf) THEN <<>>
+                            ELSE <<Fail("C10", c, "renderer result shape (text with an error, empty text without one, or a repeated call answers differently)")>>)
           IN [i \in DOMAIN g.cases |-> chk(g.cases[i])]
 
 \* C11: a default field scopes bare terms and changes nothing else
